@@ -158,6 +158,10 @@ def boot(scheduler_type='default', auth_enable=False):
     CONF.set_default('connection', 'sqlite://', group='database')
     CONF.set_default('max_overflow', -1, group='database')
     CONF.set_default('max_pool_size', 1000, group='database')
+    # oslo.db recycles connections after an hour by default; the recycled
+    # connection of an in-memory SQLite database is a new, empty database
+    # (seen in a thorough run that lived 3610 s under load)
+    CONF.set_default('connection_recycle_time', 10 ** 9, group='database')
     CONF.set_override('only_builtin_actions', True, 'legacy_action_provider')
     CONF.set_override('load_action_generators', False,
                       'legacy_action_provider')
